@@ -292,7 +292,10 @@ def cmp_any(a, b, path, out, seen):
         return
     if isinstance(a, (int, str, bool, float, type(None), bytes, bytearray)):
         if a != b:
-            out.append((path, repr(a)[:80], repr(b)[:80]))
+            if isinstance(a, (bytes, bytearray)):
+                out.append((path, '%d bytes %s' % (len(a), bytes(a).hex()[-40:]), '%d bytes %s' % (len(b), bytes(b).hex()[-40:])))
+            else:
+                out.append((path, repr(a)[:80], repr(b)[:80]))
         return
     if isinstance(a, (list, tuple)):
         if len(a) != len(b):
